@@ -77,6 +77,15 @@ pub(crate) struct SnapshotList {
     list: LinkedList<InnerSnapshot>,
 }
 
+/// Read-only accessors for external runtime monitors.
+#[cfg(feature = "verif")]
+impl SnapshotList {
+    /// The number of live snapshots.
+    pub(crate) fn verif_len(&self) -> usize {
+        self.list.len()
+    }
+}
+
 /// Crate-only methods
 impl SnapshotList {
     /// Create a new instance of [`SnapshotList`].
